@@ -267,7 +267,7 @@ Inductive resolved := Resolved (g : list (ref * option elem)) | Dangling (r : re
 
 Fixpoint resolve_refs (m : PM.t elem) (rs : list ref) (acc : list (ref * option elem)) : resolved :=
   match rs with
-  | [] => Resolved (rev acc)
+  | [] => Resolved (rev_append acc [])
   | r :: rest =>
       match lookup m (r_target r) with
       | RNull => resolve_refs m rest ((r, None) :: acc)
